@@ -812,7 +812,7 @@ func (in *instr) stmt(s ast.Stmt, nAcc, nW *int) []ast.Stmt {
 					}
 					continue
 				}
-				in.expr(kv, true)
+				in.writeTarget(kv)
 			}
 		})
 		in.header(x.Pos(), accKV, l2, false)
@@ -905,13 +905,13 @@ func (in *instr) simple(s ast.Stmt) {
 				}
 				continue
 			}
-			in.expr(l, true)
+			in.writeTarget(l)
 		}
 		for _, r := range x.Rhs {
 			in.expr(r, false)
 		}
 	case *ast.IncDecStmt:
-		in.expr(x.X, true)
+		in.writeTarget(x.X)
 	case *ast.DeclStmt:
 		gd := x.Decl.(*ast.GenDecl)
 		if gd.Tok != token.VAR {
@@ -979,6 +979,48 @@ func (in *instr) recvField(e ast.Expr) (string, bool) {
 		return "", false
 	}
 	return se.Sel.Name, true
+}
+
+func stripParens(e ast.Expr) ast.Expr {
+	for {
+		p, ok := e.(*ast.ParenExpr)
+		if !ok {
+			return e
+		}
+		e = p.X
+	}
+}
+
+// writeTarget handles an assignment / ++ / range target. Only two forms that
+// involve the receiver are understood: recv.f (the field itself) and recv.f[k]
+// where f is declared as a map (a map element write is a write of the map).
+// Finer-grained targets (slice elements, sub-fields, pointees) would need a
+// finer location model: reporting them as a write of the whole field could
+// raise false alarms, so they fail the build instead.
+func (in *instr) writeTarget(e ast.Expr) {
+	e = stripParens(e)
+	if fld, ok := in.recvField(e); ok {
+		if in.st.lockField[fld] != "" {
+			failf(e.Pos(), "%s: lock field %s assigned", in.fn, fld)
+		}
+		in.add(fld, true, e.Pos())
+		return
+	}
+	if ix, ok := e.(*ast.IndexExpr); ok {
+		if fld, ok := in.recvField(stripParens(ix.X)); ok {
+			if _, isMap := in.st.fields[fld].(*ast.MapType); !isMap {
+				failf(e.Pos(), "%s: element write %s.%s[...] on a field that is not declared as a map (element granularity is not modelled)", in.fn, in.recv, fld)
+			}
+			in.add(fld, true, e.Pos())
+			in.expr(ix.Index, false)
+			return
+		}
+	}
+	if rootIdent(e) == in.recv && in.recv != "" {
+		failf(e.Pos(), "%s: write through a receiver field (sub-field, pointee or nested element: finer than field granularity, not modelled)", in.fn)
+	}
+	// a local target: only its index / operand expressions can touch receiver fields
+	in.expr(e, false)
 }
 
 // expr records the receiver-field accesses of e; write tells whether e is an
@@ -1106,15 +1148,19 @@ func (in *instr) callExpr(c *ast.CallExpr) {
 	case *ast.Ident:
 		if f.Obj == nil { // not declared in this file: builtin or other file of the package
 			switch f.Name {
-			case "delete", "clear":
+			case "delete", "clear", "copy":
+				// the whole object owned by the field is (potentially) modified
 				if len(c.Args) > 0 {
-					in.expr(c.Args[0], true)
-				}
-				in.args(c, 1, f.Name)
-				return
-			case "copy":
-				if len(c.Args) > 0 {
-					in.expr(c.Args[0], true)
+					if fld, ok := in.recvField(stripParens(c.Args[0])); ok {
+						if in.st.lockField[fld] != "" {
+							failf(c.Pos(), "%s: lock field passed to %s", in.fn, f.Name)
+						}
+						in.add(fld, true, c.Args[0].Pos())
+					} else if rootIdent(c.Args[0]) == in.recv && in.recv != "" {
+						failf(c.Pos(), "%s: %s of a part of a receiver field (finer than field granularity: not modelled)", in.fn, f.Name)
+					} else {
+						in.expr(c.Args[0], false)
+					}
 				}
 				in.args(c, 1, f.Name)
 				return
